@@ -566,7 +566,9 @@ func normalizeValue(
 		d := v.Interface().(time.Duration)
 		return newString(ctx, opts.meta, d.String()), nil
 	case tRegexp:
-		r := v.Addr().Interface().(*regexp.Regexp)
+		// held by value where it cannot be addressed (a map value, a field of a
+		// struct passed by value): read from a copy
+		r := v.Interface().(regexp.Regexp)
 		return newString(ctx, opts.meta, r.String()), nil
 	}
 
